@@ -15,6 +15,7 @@ import IgrisModel.C01.Slist
 import IgrisModel.C01.More
 import IgrisModel.C01.Ext3
 import IgrisModel.C01.Ext4
+import IgrisModel.C01.Ext5
 namespace Igris.C01
 
 /-- a history of the reference semantics -/
@@ -852,5 +853,147 @@ theorem pop_idiom_dlist_hlist :
   · have hf : h.first l = some x := by have := r.chain; simp only [HChain] at this; exact this.1
     simp only [hlistPopFirst, hf]
     exact ⟨trivial, hlist_del_member (pre := []) (post := xs) (by simpa using r)⟩
+
+end Igris.C01
+
+/-! ## Extension round 3
+
+Every macro of igris/util/member.h / memberxx.h at pointer level (64-bit words, NULL = 0, any offset), the
+counting loops as the C code writes them, `circular_size` on an ill-formed ring, the wrap-around comparator. -/
+namespace Igris.C01
+
+/-- NULL-SAFETY: `mcast_out_or_null` / `mcast_in_or_null` map NULL to NULL, and are the plain macros on
+every other pointer -/
+theorem or_null_macros (p off : Addr) :
+    mcastOutOrNull 0 off = 0 ∧ mcastInOrNull 0 off = 0 ∧
+    (p ≠ 0 → mcastOutOrNull p off = mcastOut p off ∧ mcastInOrNull p off = mcastIn p off) := by
+  refine ⟨by simp [mcastOutOrNull], by simp [mcastInOrNull], fun hp => ⟨?_, ?_⟩⟩
+  · unfold mcastOutOrNull mcastOut; rw [if_neg hp]
+  · unfold mcastInOrNull mcastIn; rw [if_neg hp]
+example : (4096#64 : Addr) ≠ 0 := by decide
+
+/-- `container_of ∘ member = id` for the NULL-safe pair, EXACTLY where it holds: the round trip through
+`mcast_in_or_null` then `mcast_out_or_null` gives the object back iff the object is NULL or its member does
+not sit at address 0 (the wrap-around `e + off = 0`); the other round trip iff the member pointer is NULL
+or is not the member of the object at address 0 -/
+theorem or_null_round_trip_iff (e p off : Addr) :
+    (mcastOutOrNull (mcastInOrNull e off) off = e ↔ (e = 0 ∨ e + off ≠ 0)) ∧
+    (mcastInOrNull (mcastOutOrNull p off) off = p ↔ (p = 0 ∨ p - off ≠ 0)) := by
+  have z1 : mcastOutOrNull 0 off = 0 := by simp [mcastOutOrNull]
+  have z2 : mcastInOrNull 0 off = 0 := by simp [mcastInOrNull]
+  constructor
+  · by_cases he : e = 0
+    · subst he; rw [z2, z1]; exact ⟨fun _ => Or.inl rfl, fun _ => rfl⟩
+    · by_cases hw : e + off = 0
+      · have h1 : mcastInOrNull e off = 0 := by unfold mcastInOrNull; rw [if_neg he]; exact hw
+        rw [h1, z1]
+        constructor
+        · intro h; exact absurd h.symm he
+        · intro h; rcases h with h | h
+          · exact absurd h he
+          · exact absurd hw h
+      · have h1 : mcastInOrNull e off = e + off := by unfold mcastInOrNull; rw [if_neg he]
+        have h2 : mcastOutOrNull (e + off) off = e := by
+          unfold mcastOutOrNull; rw [if_neg hw]; exact BitVec.add_sub_cancel e off
+        rw [h1, h2]; exact ⟨fun _ => Or.inr hw, fun _ => rfl⟩
+  · by_cases hp : p = 0
+    · subst hp; rw [z1, z2]; exact ⟨fun _ => Or.inl rfl, fun _ => rfl⟩
+    · by_cases hw : p - off = 0
+      · have h1 : mcastOutOrNull p off = 0 := by unfold mcastOutOrNull; rw [if_neg hp]; exact hw
+        rw [h1, z2]
+        constructor
+        · intro h; exact absurd h.symm hp
+        · intro h; rcases h with h | h
+          · exact absurd h hp
+          · exact absurd hw h
+      · have h1 : mcastOutOrNull p off = p - off := by unfold mcastOutOrNull; rw [if_neg hp]
+        have h2 : mcastInOrNull (p - off) off = p := by
+          unfold mcastInOrNull; rw [if_neg hw]; exact BitVec.sub_add_cancel p off
+        rw [h1, h2]; exact ⟨fun _ => Or.inr hw, fun _ => rfl⟩
+/-- both excluded regions are inhabited (a 64-bit wrap / an object at address 0) and both round trips hold
+for ordinary pointers -/
+theorem or_null_round_trip_witness :
+    mcastOutOrNull (mcastInOrNull (0 - 8#64) 8#64) 8#64 ≠ (0 - 8#64 : Addr) ∧
+    mcastInOrNull (mcastOutOrNull 8#64 8#64) 8#64 ≠ (8#64 : Addr) ∧
+    mcastOutOrNull (mcastInOrNull 4096#64 8#64) 8#64 = (4096#64 : Addr) := by decide
+
+/-- `member_offsetof(type, member)` = `(size_t) &((type *)0)->member` and the C++ `member_offset(&T::m)` ARE
+the byte offset; `member_container(ptr, &T::m)` is `mcast_out`; hence both C++ round trips -/
+theorem member_offset_and_container (e p off : Addr) :
+    memberOffsetof off = off ∧ memberContainer p off = mcastOut p off ∧
+    memberContainer (mcastIn e off) off = e ∧ mcastIn (memberContainer p off) off = p := by
+  have h0 : memberOffsetof off = off := by simp [memberOffsetof, mcastIn]
+  refine ⟨h0, by simp [memberContainer, h0, mcastOut], ?_, ?_⟩
+  · simp [memberContainer, h0, mcastIn, BitVec.add_sub_cancel]
+  · simp [memberContainer, h0, mcastIn, BitVec.sub_add_cancel]
+
+/-- the plain `mcast_out` is NOT NULL-safe: for a member that is not first, NULL becomes a non-NULL pointer
+(`hlist_first_entry` of an empty list, `hlist_next_entry` of the last element: the reason why
+`hlist_for_each_entry` had to use `mcast_out_or_null`) -/
+theorem mcast_out_null_is_not_null (h : HHeap) (l : Nat) (off : Addr) (hoff : off ≠ 0) (he : h.first l = none) :
+    mcastOut 0 off ≠ 0 ∧ hlistFirstEntry h l off = 0 - off ∧ hlistFirstEntry h l off ≠ 0 := by
+  have h1 : mcastOut 0 off ≠ 0 := by
+    intro h; apply hoff
+    have := congrArg (fun x => x + off) h
+    simpa [mcastOut, BitVec.sub_add_cancel] using this.symm
+  refine ⟨h1, by simp [hlistFirstEntry, he, ptrOf, mcastOut], ?_⟩
+  simpa [hlistFirstEntry, he, ptrOf] using h1
+example : (8#64 : Addr) ≠ 0 := by decide
+
+/-- the entry macros of slist / hlist are `container_of` of the stored link (any offset): on a member of a list
+the next entry is the object of the next node -/
+theorem slist_hlist_entry_macros (sh : SHeap) (hh : HHeap) (off : Addr) {p : Nat} (hp : p < 2 ^ 64) :
+    mcastIn (slistNextEntry sh (mcastOut (BitVec.ofNat 64 p) off) off) off = BitVec.ofNat 64 (sh.next p) ∧
+    mcastIn (slistFirstEntry sh (BitVec.ofNat 64 p) off) off = BitVec.ofNat 64 (sh.next p) ∧
+    mcastIn (hlistNextEntry hh (mcastOut (BitVec.ofNat 64 p) off) off) off = ptrOf (hh.next p) := by
+  have e : (BitVec.ofNat 64 p).toNat = p := by simp [BitVec.toNat_ofNat]; omega
+  refine ⟨?_, ?_, ?_⟩
+  · simp [slistNextEntry, mcastIn, mcastOut, SHeap.nextA, BitVec.sub_add_cancel, e]
+  · simp [slistFirstEntry, mcastIn, mcastOut, SHeap.nextA, BitVec.sub_add_cancel, e]
+  · simp [hlistNextEntry, mcastIn, mcastOut, BitVec.sub_add_cancel, e]
+
+/-- `dlist_size`, `dlist_size_reversed`, `slist_size`, `dlist_in` written as the C LOOPS (counter / early
+return as loop state — what the driver runs) are the counters / membership of the visited sequence, on ANY
+heap and for any fuel; so `size_int_precondition` (exact up to INT_MAX elements) is about the loops -/
+theorem size_loops_are_the_counters (h : Heap) (sh : SHeap) (fuel fnd head : Nat) :
+    dlistSizeL h fuel head = dlistSizeC h fuel head ∧ dlistSizeReversedL h fuel head = dlistSizeReversedC h fuel head ∧
+    slistSizeL sh fuel head = slistSizeC sh fuel head ∧ dlistInL h fuel fnd head = dlistIn h fuel fnd head := by
+  refine ⟨?_, ?_, ?_, ?_⟩
+  · simp [dlistSizeL, dlistSizeC, countInt, dlistToList, dlistSizeLoop_eq]
+  · simp [dlistSizeReversedL, dlistSizeReversedC, countInt, dlistToListRev, dlistSizeRevLoop_eq]
+  · simp [slistSizeL, slistSizeC, countInt, slistToList, slistSizeLoop_eq]
+  · simp [dlistInL, dlistIn, dlistToList, dlistInLoop_eq]
+
+/-- the `int` result of the LOOP `dlist_size` on a realised family: the length, for lists of at most
+INT_MAX elements (totality: the loop version has a value for every heap and fuel; this is its value) -/
+theorem size_loop_exact {h : Heap} {A : Rings} {hd : Nat} {xs : List Nat} (ok : RingsOK h A)
+    (hm : (hd :: xs) ∈ A) (fuel : Nat) (hf : xs.length + 1 < fuel) (hlen : xs.length ≤ 2147483647) :
+    dlistSizeL h fuel hd = xs.length ∧ dlistSizeReversedL h fuel hd = xs.length := by
+  have := size_int_precondition ok hm fuel hf hlen
+  have l := size_loops_are_the_counters h ⟨fun x => x⟩ fuel 0 hd
+  exact ⟨l.1.trans this.1, l.2.1.trans this.2⟩
+
+/-- WHAT THE C++ `circular_size()` / `is_correct()` DO ON AN ILL-FORMED RING: on the lasso `0 → 1 → 1 → …`
+the `do … while (n != this)` loop started at 0 has not returned after ANY number of steps (the bounded model
+loop exhausts every fuel) — the code never returns; on well-formed rings it does (`cpp_size_is_correct`) -/
+theorem circular_size_lasso_witness : ∀ fuel, circularSize lassoHeap fuel 0 = fuel := by
+  intro fuel
+  cases fuel with
+  | zero => simp [circularSize, circSizeAux]
+  | succ n =>
+    have e : circularSize lassoHeap (n + 1) 0 = circSizeAux lassoHeap 0 n 1 1 := by
+      simp [circularSize, circSizeAux, lassoHeap]
+    rw [e, circSizeAux_lasso]; omega
+
+/-- the wrap-around comparator of the timers, `(int8_t)(a - b) < 0`: true iff the 8-bit difference is in
+the upper half; it is NOT transitive (0 before 100 before 200, but not 0 before 200) — `move_sorted_refines`
+holds for ANY comparator, so the insertion position is still "in front of the first entry for which it
+answers true" -/
+theorem wrap_comparator (a b : BitVec 8) :
+    (wrapLess8 a b = true ↔ 128 ≤ (a - b).toNat) ∧
+    (wrapLess8 0 100 = true ∧ wrapLess8 100 200 = true ∧ wrapLess8 0 200 = false) := by
+  refine ⟨?_, by decide⟩
+  have : ∀ d : BitVec 8, (decide (d.toInt < 0) = true ↔ 128 ≤ d.toNat) := by decide
+  exact this (a - b)
 
 end Igris.C01
